@@ -1,3 +1,232 @@
-From V Require Import Common.NumFacts C08.Model C08.Proofs.
-Theorem C08_placeholder : 1 == 1. Proof. exact placeholder. Qed.
-Print Assumptions C08_placeholder.
+(* C08 — property theorems only.  Each is closed by [exact <lemma>] and followed by Print Assumptions.
+   The model (C08/Model.v) is of the code WITH pending_fixes/C08_1 applied (solve_Ty / solve_Tx / solve_Px
+   hand the normalised composition to the residual).  Root finders are oracles: secant_ok / iq_ok / weg_fix. *)
+From V Require Import Common.NumFacts C08.Model C08.Gen_kernels C08.Proofs.
+From Coq Require Import Permutation.
+
+(* normalised output: fn.normalize returns fractions that sum to one (also in its equal-fractions fallback)
+   and never makes a non-negative vector negative *)
+Theorem C08_normalised_out : forall a, a <> [] ->
+  qsum (normalize a) == 1 /\ (nonneg a -> nonneg (normalize a)) /\ length (normalize a) = length a.
+Proof. intros a H. split; [exact (normalize_sum1 a H)|]. split; [exact (normalize_nonneg a) | exact (normalize_length a)]. Qed.
+Print Assumptions C08_normalised_out.
+
+(* a computed bubble temperature satisfies modified Raoult's law on the normalised composition:
+   the implied vapour fractions sum to one and they are what is returned *)
+Theorem C08_solve_Ty_equation : forall k S z P T y, secant_ok S -> iq_ok S -> N2 z ->
+  solve_Ty k S z P = Ok (T, y) ->
+  0 < T /\ qsum y == 1 /\ y =v= raoult_y k S (znorm z) T P /\ qsum (raoult_y k S (znorm z) T P) == 1.
+Proof. exact solve_Ty_equation. Qed.
+Print Assumptions C08_solve_Ty_equation.
+
+(* all four wrappers: the result is a root of the residual built from z/sum z, the returned fractions are
+   the ones written by the residual at that root and they sum to one *)
+Theorem C08_solve_equations : forall k S z a r out, secant_ok S -> iq_ok S -> N2 z ->
+  (solve_Ty k S z a = Ok (r, out) ->
+     qsum out == 1 /\ exists raw, out =v= raw /\ root_of (bubble_T_error k S a (vdivs (znorm z) a) (znorm z)) r raw) /\
+  (solve_Py k S z a = Ok (r, out) ->
+     qsum out == 1 /\ exists raw, out =v= raw /\
+       root_of (bubble_P_error k S (clampT k a) (Py_prep k z (clampT k a)) (psats_at k (clampT k a))) r raw) /\
+  (solve_Tx k S z a = Ok (r, out) ->
+     qsum out == 1 /\ exists raw, out =v= raw /\
+       root_of (dew_T_error k S a (znorm z) (map (fun u => u * a) (znorm z))) r raw) /\
+  (solve_Px k S z a = Ok (r, out) ->
+     qsum out == 1 /\ exists raw, out =v= raw /\
+       root_of (dew_P_error k S a (fst (Px_prep k z a)) (snd (Px_prep k z a)) (psats_at k a)) r raw).
+Proof. exact solve_all_equations. Qed.
+Print Assumptions C08_solve_equations.
+
+(* listing the chemicals in another order permutes z, Psat, gamma, pcf: the residual is unchanged and the
+   vapour fractions are permuted the same way *)
+Theorem C08_residual_perm : forall s k k' S S' P zoP zn buf buf' T v y v' y',
+  perm_pkg s k k' -> length zoP = length (chems k) -> length zn = length (chems k) ->
+  bubble_T_error k S P zoP zn buf T = Ok (v, y) ->
+  bubble_T_error k' S' P (vperm s zoP) (vperm s zn) buf' T = Ok (v', y') ->
+  v' == v /\ y' = vperm s y.
+Proof. exact residual_perm_lemma. Qed.
+Print Assumptions C08_residual_perm.
+Theorem C08_psats_perm : forall k k' s d T,
+  Forall (fun i => (i < length (chems k))%nat) s -> chems k' = map (fun i => nth i (chems k) d) s ->
+  psats_at k' T = vperm s (psats_at k T).
+Proof. exact psats_at_perm. Qed.
+Print Assumptions C08_psats_perm.
+
+(* scale invariance: the wrappers use z only through positives z and z / sum z *)
+Theorem C08_prep_scale : forall k c z a, 0 < c -> ~ qsum z == 0 ->
+  positives (vscale c z) = positives z /\ znorm (vscale c z) =v= znorm z /\
+  fst (Ty_prep (vscale c z) a) =v= fst (Ty_prep z a) /\ snd (Ty_prep (vscale c z) a) =v= snd (Ty_prep z a) /\
+  fst (Tx_prep (vscale c z) a) =v= fst (Tx_prep z a) /\ snd (Tx_prep (vscale c z) a) =v= snd (Tx_prep z a) /\
+  fst (Px_prep k (vscale c z) a) =v= fst (Px_prep k z a) /\ snd (Px_prep k (vscale c z) a) =v= snd (Px_prep k z a).
+Proof.
+  intros k c z a Hc Hz. split; [exact (positives_scale c z Hc)|].
+  split; [apply znorm_scale; [lra | exact Hz] | exact (prep_scale k c z a Hc Hz)].
+Qed.
+Print Assumptions C08_prep_scale.
+Theorem C08_residual_scale_T : forall k S P c z buf buf' T,
+  0 < c -> ~ qsum z == 0 -> phi_ideal k = true -> gam_proper k ->
+  resid_equiv
+    (bubble_T_error k S P (fst (Ty_prep (vscale c z) P)) (snd (Ty_prep (vscale c z) P)) buf T)
+    (bubble_T_error k S P (fst (Ty_prep z P)) (snd (Ty_prep z P)) buf' T).
+Proof. exact residual_scale_T_lemma. Qed.
+Print Assumptions C08_residual_scale_T.
+Theorem C08_residual_scale_P : forall k S T c z buf buf' P,
+  0 < c -> ~ qsum z == 0 -> phi_ideal k = true -> gam_proper k ->
+  resid_equiv
+    (bubble_P_error k S T (Py_prep k (vscale c z) T) (psats_at k T) buf P)
+    (bubble_P_error k S T (Py_prep k z T) (psats_at k T) buf' P).
+Proof. exact residual_scale_P_lemma. Qed.
+Print Assumptions C08_residual_scale_P.
+Theorem C08_residual_scale_dew : forall k S P c z buf buf' T v1 x1 v2 x2,
+  0 < c -> ~ qsum z == 0 -> ideal_pkg k -> weg_fix S k -> length z = length (chems k) ->
+  Forall (fun p => c1em16 <= p) (psats_at k T) ->
+  dew_T_error k S P (fst (Tx_prep (vscale c z) P)) (snd (Tx_prep (vscale c z) P)) buf T = Ok (v1, x1) ->
+  dew_T_error k S P (fst (Tx_prep z P)) (snd (Tx_prep z P)) buf' T = Ok (v2, x2) ->
+  v1 == v2 /\ x1 =v= x2.
+Proof. exact residual_scale_dew_lemma. Qed.
+Print Assumptions C08_residual_scale_dew.
+
+(* gamma = phi = pcf = 1: closed forms of the two equations *)
+Theorem C08_ideal_closed_form_bubble : forall k S P z buf T v y,
+  ideal_pkg k -> length z = length (chems k) -> ~ P == 0 ->
+  bubble_T_error k S P (vdivs z P) z buf T = Ok (v, y) ->
+  (v == 0 <-> P == wsum z (psats_at k T)) /\ y =v= vdivs (vmul z (psats_at k T)) P.
+Proof.
+  intros k S P z buf T v y I L NZ H. split; [exact (ideal_closed_form_bubble k S P z buf T v y I L NZ H)|].
+  exact (proj1 (proj2 (bubble_T_error_ideal_form k S P z buf T v y I L H))).
+Qed.
+Print Assumptions C08_ideal_closed_form_bubble.
+Theorem C08_ideal_closed_form_dew : forall k S P z buf T v x,
+  ideal_pkg k -> weg_fix S k -> length z = length (chems k) ->
+  Forall (fun p => c1em16 <= p) (psats_at k T) -> ~ P == 0 ->
+  dew_T_error k S P z (map (fun a => a * P) z) buf T = Ok (v, x) ->
+  (v == 0 <-> 1 / P == wsumi z (psats_at k T)).
+Proof. exact ideal_closed_form_dew. Qed.
+Print Assumptions C08_ideal_closed_form_dew.
+
+(* weighted AM-HM: dew pressure <= bubble pressure for composition-independent K-values *)
+Theorem C08_dew_le_bubble_P : forall z p, nonneg z -> allpos p -> length z = length p -> qsum z == 1 ->
+  0 < wsumi z p /\ 1 / wsumi z p <= wsum z p.
+Proof. exact dew_le_bubble_P_math. Qed.
+Print Assumptions C08_dew_le_bubble_P.
+(* bubble temperature <= dew temperature for increasing vapour pressures *)
+Theorem C08_bubble_le_dew_T : forall ps z P Tb Td,
+  Forall increasing ps -> allpos (pat ps Td) -> nonneg z -> length z = length ps -> qsum z == 1 -> 0 < P ->
+  wsum z (pat ps Tb) == P -> P * wsumi z (pat ps Td) == 1 -> Tb <= Td.
+Proof. exact bubble_le_dew_T_math. Qed.
+Print Assumptions C08_bubble_le_dew_T.
+
+(* the ordering clause of the property for an arbitrary package: NOT a theorem (a composition-dependent
+   gamma can produce an azeotrope).  Proved part: ideal packages, on the wrappers themselves. *)
+Definition C08_ordering_statement : Prop := forall k S z P Tb yb Td xd,
+  secant_ok S -> iq_ok S -> weg_fix S k -> nonneg z -> length z = length (chems k) -> N2 z -> 0 < P ->
+  solve_Ty k S z P = Ok (Tb, yb) -> solve_Tx k S z P = Ok (Td, xd) -> Tb <= Td.
+Theorem C08_bubble_le_dew_T_partial : forall k S z P Tb yb Td xd,
+  secant_ok S -> iq_ok S -> weg_fix S k -> ideal_pkg k -> psat_increasing k -> psat_floor_at k Td ->
+  nonneg z -> length z = length (chems k) -> N2 z -> 0 < P ->
+  solve_Ty k S z P = Ok (Tb, yb) -> solve_Tx k S z P = Ok (Td, xd) -> Tb <= Td.
+Proof. exact bubble_le_dew_T_lemma. Qed.
+Print Assumptions C08_bubble_le_dew_T_partial.
+Theorem C08_dew_le_bubble_P_partial : forall k S z T Pb yb Pd xd,
+  secant_ok S -> iq_ok S -> weg_fix S k -> ideal_pkg k -> allpos (psats_at k T) ->
+  nonneg z -> length z = length (chems k) -> N2 z -> pTmin k <= T <= pTmax k ->
+  solve_Py k S z T = Ok (Pb, yb) -> solve_Px k S z T = Ok (Pd, xd) -> Pd <= Pb.
+Proof. exact dew_le_bubble_P_lemma. Qed.
+Print Assumptions C08_dew_le_bubble_P_partial.
+
+(* T <-> P inverse (ideal vapour phase, any activity-coefficient model) *)
+Theorem C08_TP_inverse : forall k S z P T y P' y',
+  secant_ok S -> iq_ok S -> N2 z -> ideal_vapour k -> gam_shape k -> length z = length (chems k) ->
+  ~ P == 0 -> pTmin k <= T <= pTmax k ->
+  solve_Ty k S z P = Ok (T, y) -> solve_Py k S z T = Ok (P', y') -> P' == P.
+Proof. exact TP_inverse_lemma. Qed.
+Print Assumptions C08_TP_inverse.
+Theorem C08_PT_inverse : forall k S z T P y T' y',
+  secant_ok S -> iq_ok S -> N2 z -> ideal_vapour k -> gam_shape k -> length z = length (chems k) ->
+  pTmin k <= T <= pTmax k -> (forall a b, Kfun k z a == Kfun k z b -> a == b) ->
+  solve_Py k S z T = Ok (P, y) -> solve_Ty k S z P = Ok (T', y') -> T' == T.
+Proof. exact PT_inverse_lemma. Qed.
+Print Assumptions C08_PT_inverse.
+
+(* single component: the chemical's own saturation temperature / pressure, unit-vector output *)
+Theorem C08_single_component : forall k S z P i c,
+  count_true (positives z) = 1%nat -> first_true (positives z) = Some i -> nth_error (chems k) i = Some c ->
+  solve_Ty k S z P = (do T <- single_T S c P; Ok (T, normalize z)) /\
+  solve_Tx k S z P = (do T <- single_T S c P; Ok (T, normalize z)) /\
+  (forall T, solve_Py k S z T = Ok (single_P c T, normalize z)).
+Proof. exact solve_Ty_single. Qed.
+Print Assumptions C08_single_component.
+Theorem C08_single_component_Px : forall k S z T i c, nonneg z ->
+  count_true (positives z) = 1%nat -> first_true (positives z) = Some i -> nth_error (chems k) i = Some c ->
+  solve_Px k S z T = Ok (single_P c T, normalize z).
+Proof.
+  intros k S z T i c Hz C F N. apply (solve_Px_single k S z T i c C); [|exact N].
+  rewrite (truthy_positives z Hz). exact F.
+Qed.
+Print Assumptions C08_single_component_Px.
+Theorem C08_single_component_output : forall z i, nonneg z ->
+  count_true (positives z) = 1%nat -> first_true (positives z) = Some i -> c1em16 <= qsum z ->
+  nthq (normalize z) i == 1 /\ forall j, j <> i -> nthq (normalize z) j == 0.
+Proof. exact normalize_single. Qed.
+Print Assumptions C08_single_component_output.
+Theorem C08_Tsat_is_saturation : forall S c P T, secant_ok S -> iq_ok S -> Tsat S c P = Ok T ->
+  c_psat c T - P == 0 \/ (c_Tb c = Some T /\ ~ T == 0 /\ P == atm).
+Proof. exact Tsat_sound. Qed.
+Print Assumptions C08_Tsat_is_saturation.
+
+(* instance cache: for every history of constructor calls the instance returned equals a fresh build,
+   and object identity coincides with key equality *)
+Theorem C08_cache_coherent : forall (A : Type) (build : key -> res A) ks k,
+  let st := snd (cache_run build ([], 0%nat) ks) in
+  match fst (cache_new build st k) with
+  | Ok (id, a) => build k = Ok a
+  | Err e => build k = Err e
+  end.
+Proof. exact @cache_coherent_lemma. Qed.
+Print Assumptions C08_cache_coherent.
+Theorem C08_cache_identity : forall (A : Type) (build : key -> res A) ks k1 k2 i1 a1 i2 a2,
+  let st := snd (cache_run build ([], 0%nat) ks) in
+  let r1 := cache_new build st k1 in
+  let r2 := cache_new build (snd r1) k2 in
+  fst r1 = Ok (i1, a1) -> fst r2 = Ok (i2, a2) -> (i1 = i2 <-> k1 = k2).
+Proof. exact @cache_identity_lemma. Qed.
+Print Assumptions C08_cache_identity.
+
+(* the residual kernels and the composition arguments, as translated from the current source of /repo by
+   tr/C08_kernels.py (regenerated on every run), are the functions the theorems above are about *)
+Theorem C08_generated_kernels_agree :
+  g_bubble_T_error = bubble_T_error /\ g_bubble_P_error = bubble_P_error /\
+  g_bubble_T_error_ideal = bubble_T_error_ideal /\ g_Py_ideal = Py_ideal /\
+  g_dew_T_error = dew_T_error /\ g_dew_T_error_ideal = dew_T_error_ideal /\ g_dew_P_error = dew_P_error /\
+  g_Ty_prep = Ty_prep /\ g_Py_prep = Py_prep /\ g_Tx_prep = Tx_prep /\ g_Px_prep = Px_prep.
+Proof. exact generated_kernels_agree. Qed.
+Print Assumptions C08_generated_kernels_agree.
+
+(* ---------- non-vacuity: a concrete ideal package and a root finder meeting the contracts ---------- *)
+Example C08_nonvacuous_contracts :
+  secant_ok ex_S /\ iq_ok ex_S /\ weg_fix ex_S ex_pkg /\ ideal_pkg ex_pkg /\ psat_increasing ex_pkg /\
+  ideal_vapour ex_pkg /\ gam_shape ex_pkg /\ N2 [1; 1] /\ nonneg [1; 1] /\ length [1; 1] = length (chems ex_pkg).
+Proof.
+  split; [apply checked_secant_ok|]. split; [apply checked_iq_ok|]. split; [exact ex_weg_fix|].
+  split; [exact ex_ideal|]. split; [exact ex_increasing|].
+  split; [split; reflexivity|]. split; [intros x T H; rewrite H; reflexivity|].
+  split; [unfold N2; vm_compute; lia|]. split; [repeat constructor; lra | reflexivity].
+Qed.
+Example C08_nonvacuous_points :
+  (exists y, solve_Ty ex_pkg ex_S [1; 1] 49152 = Ok (320, y)) /\
+  (exists x, solve_Tx ex_pkg ex_S [1; 1] 49152 = Ok (352, x)) /\
+  (exists y, solve_Py ex_pkg ex_S [1; 1] 320 = Ok (49152, y)) /\
+  (exists x, solve_Px ex_pkg ex_S [1; 1] 320 = Ok (131072 # 3, x)) /\
+  pTmin ex_pkg <= 320 <= pTmax ex_pkg /\ psat_floor_at ex_pkg 352 /\ allpos (psats_at ex_pkg 320).
+Proof.
+  split; [eexists; vm_compute; reflexivity|]. split; [eexists; vm_compute; reflexivity|].
+  split; [eexists; vm_compute; reflexivity|]. split; [eexists; vm_compute; reflexivity|].
+  split; [split; vm_compute; discriminate|].
+  split; repeat constructor; vm_compute; try discriminate; reflexivity.
+Qed.
+Example C08_nonvacuous_perm :
+  perm_pkg [1%nat; 0%nat] ex_pkg
+    (mkpkg (rev ex_chems) (ideal_gam 2) true (ideal_phi 2) (mock_pcf 2) (pTmin ex_pkg) (pTmax ex_pkg) (pPmin ex_pkg) (pPmax ex_pkg)).
+Proof.
+  split; [apply perm_swap|]. split; [intros T; reflexivity|]. split; [reflexivity|]. split; [reflexivity|].
+  split; intros; split; reflexivity.
+Qed.
